@@ -146,4 +146,62 @@ theorem view_dot (C : List String) (n : Nat) (l r : Cst) (hl : IsE l) (hr : IsE 
   rw [show (Cst.node "EXPR_BINARY" [l, Cst.tok (tkKind .Dot) TK.Dot.spelling none, r]) = eBinary .Dot l r from rfl, hc, ht]
   simp only [Cst.kind, beq_self_eq_true, if_true]
 
+/-! ### calls -/
+
+/-- what `lower_expr_with_args` does with a `CallExpr` once its arguments are lowered -/
+def callK (C : List String) (n : Nat) (callee : Cst) (args : List Expr) (tr : List Trailing) : M Expr :=
+  if callee.kind == "EXPR_IDENT" then do
+    let p ← lowerCtorPathFromIdentExpr callee
+    let last ← lastIdent p
+    let ls ← getLocals
+    if isCtorPath C ls p last then pure (applyTrailing (.constr p args) tr)
+    else pure (applyTrailing (.call (.path p) args) tr)
+  else
+    if (callee.kind == "EXPR_CALL" || callee.kind == "EXPR_CLOSURE" || (callee.kind == "EXPR_BINARY" && isDotOp callee))
+        && !recvPrefix callee then do
+      let f ← lowerExprW C n callee []
+      pure (applyTrailing (.call f args) tr)
+    else lowerExprW C n callee (.call args :: tr)
+
+theorem childrenK_args (xs : List Cst) : childrenK ["ARG"] (.node "ARG_LIST" (xs.map eArg)) = xs.map eArg := by
+  induction xs with
+  | nil => rfl
+  | cons x xs ih =>
+    rw [List.map_cons, childrenK_cons_hit (x := eArg x) rfl (by simp [eArg, Cst.kind]), ih]
+
+theorem view_call (C : List String) (n : Nat) (f : Cst) (hf : IsE f) (args : List Cst) (tr : List Trailing) :
+    lowerExprW C (n + 1) (eCall f args) tr =
+      (mapSkip (lowerArg C n) (args.map eArg) >>= fun as => callK C n f as tr) := by
+  rw [lowerExprW]
+  have hk := intKindOf_none "EXPR_CALL" (by simp)
+  have h1 : child ["ARG_LIST"] (eCall f args) = some (.node "ARG_LIST" (args.map eArg)) := by
+    unfold eCall
+    rw [child_cons_miss hf.1 (isE_not f hf ["ARG_LIST"] (by decide))]
+    exact child_cons_hit rfl (by simp [Cst.kind])
+  have h2 : child exprKinds (eCall f args) = some f := child_cons_hit hf.1 hf.2
+  simp only [Cst.kind, eCall, hk]
+  rw [show (Cst.node "EXPR_CALL" [f, Cst.node "ARG_LIST" (List.map eArg args)]) = eCall f args from rfl, h1, h2]
+  simp only [childrenK_args]
+  rfl
+
+theorem view_arg (C : List String) (n : Nat) (x : Cst) (hx : IsE x) :
+    lowerArg C (n + 1) (eArg x) = lowerExprW C n x [] := by
+  rw [lowerArg]
+  simp only [eArg, child_cons_hit hx.1 hx.2]
+
+/-- the callee test of the `CallExpr` case on the image is `Pratt.isPostfixNode` -/
+theorem postfix_embed (f : Pratt.Cst) :
+    ((embed f).kind == "EXPR_CALL" || (embed f).kind == "EXPR_CLOSURE" || ((embed f).kind == "EXPR_BINARY" && isDotOp (embed f)))
+      = Pratt.isPostfixNode f := by
+  cases f with
+  | binary k l r =>
+    have := isDotOp_eBinary k (embed l) (embed r) (embed_isE l) (embed_isE r)
+    simp only [embed] at this ⊢
+    rw [this]
+    simp [eBinary, Cst.kind, Pratt.isPostfixNode]
+  | _ => simp [embed, eIdent, eInt, eParen, ePrefix, eCall, Cst.kind, Pratt.isPostfixNode]
+
+theorem kind_ident_iff (f : Pratt.Cst) : ((embed f).kind == "EXPR_IDENT") = (match f with | .ident _ => true | _ => false) := by
+  cases f <;> simp [embed, eIdent, eInt, eParen, ePrefix, eBinary, eCall, Cst.kind]
+
 end Goml.Lower
